@@ -83,6 +83,9 @@ var emptyXmlNamespaces = make([]XmlNamespace, 0)
 
 type xmlParser struct {
 	xmlReader  *xml.Decoder
+	pending    xml.Token
+	pendingErr error
+	hasPending bool
 	namespaces []XmlNamespace
 	nsPos      int
 	attrs      []XmlAttribute
@@ -108,7 +111,7 @@ func (x *xmlParser) Pull() (node.Node, bool, error) {
 	x.attrPos = 0
 	x.namespaces = emptyXmlNamespaces
 	x.nsPos = 0
-	tok, err := x.xmlReader.Token()
+	tok, err := x.nextToken()
 
 	if err != nil {
 		return nil, false, err
@@ -123,8 +126,25 @@ func (x *xmlParser) Pull() (node.Node, bool, error) {
 			local: n.Name.Local,
 		}, false, nil
 	case xml.CharData:
+		// Character data, references and CDATA sections arrive as separate
+		// tokens but adjacent ones form a single text node: read ahead until
+		// something else shows up and keep that token for the next Pull.
+		value := (string)(n)
+
+		for {
+			next, err := x.xmlReader.Token()
+
+			if more, ok := next.(xml.CharData); ok && err == nil {
+				value += (string)(more)
+				continue
+			}
+
+			x.pending, x.pendingErr, x.hasPending = xml.CopyToken(next), err, true
+			break
+		}
+
 		return XmlCharData{
-			value: (string)(n),
+			value: value,
 		}, false, nil
 	case xml.Comment:
 		return XmlComment{
@@ -144,6 +164,15 @@ func (x *xmlParser) Pull() (node.Node, bool, error) {
 
 	//case xml.EndElement:
 	return nil, true, nil
+}
+
+func (x *xmlParser) nextToken() (xml.Token, error) {
+	if x.hasPending {
+		x.hasPending = false
+		return x.pending, x.pendingErr
+	}
+
+	return x.xmlReader.Token()
 }
 
 func createXmlNamespaces(attrs []xml.Attr) []XmlNamespace {
